@@ -148,6 +148,15 @@ func hostileInputs(k *h.Keys, r *h.Rng, n int, thorough bool) []hostileInput {
 		signedBase(k, r, h.BaseSpec{Scheme: "pgp", Entity: 0}),
 		signedBase(k, r, h.BaseSpec{Scheme: "dsse", DSSEKeys: []string{"ed25519"}, TwoGroups: true})}
 	names := []string{"unsigned", "pgp-signed", "dsse-signed"}
+	// legacy signatures, linked to objects and to groups (the legacy verifiers read other paths)
+	nl := 0
+	for _, lb := range legacyBases(k, r.Fork()) {
+		if nl < 2 && lb.hasLegacy && (strings.Contains(lb.desc, "legacy-all") || strings.HasPrefix(lb.desc, "generated (two groups: false)")) && len(lb.img) < 200000 {
+			bases = append(bases, lb.img)
+			names = append(names, fmt.Sprintf("legacy-signed-%d", nl))
+			nl++
+		}
+	}
 	hdrFields := []struct {
 		n   string
 		off int
@@ -160,6 +169,10 @@ func hostileInputs(k *h.Keys, r *h.Rng, n int, thorough bool) []hostileInput {
 	for bi, base := range bases {
 		L := uint64(len(base))
 		vals := []uint64{0, 1, ^uint64(0), 1 << 63, 1<<63 - 1, L, L + 1, L - 1, 1 << 32, 1 << 31, 1 << 40, 585, 4096}
+		// counts and sizes whose product with an element size wraps around to something small
+		for _, m := range []uint64{585, 128, 8} {
+			vals = append(vals, ^uint64(0)/m+1, ^uint64(0)/m+2, (1<<63)/m+1)
+		}
 		add(names[bi]+": unmodified", base)
 		for _, f := range hdrFields {
 			for _, v := range vals {
@@ -197,7 +210,18 @@ func hostileInputs(k *h.Keys, r *h.Rng, n int, thorough bool) []hostileInput {
 		if err != nil {
 			continue
 		}
-		for di := 0; di < len(si.Descs) && di < 5; di++ {
+		// the first descriptors and every signature descriptor (up to four of them)
+		var slots []int
+		nsig := 0
+		for di, d := range si.Descs {
+			if di < 4 || d.Used && d.Type == h.DataSignature && nsig < 4 {
+				slots = append(slots, di)
+				if d.Used && d.Type == h.DataSignature {
+					nsig++
+				}
+			}
+		}
+		for _, di := range slots {
 			o := int(si.H.DescOff) + di*h.DescSize
 			for _, f := range descFields {
 				for _, v := range vals {
